@@ -758,6 +758,10 @@ def _exec_returns(case, mon):
         mon.cls("gamma_underflow")
     if T > 1000:
         mon.cls("horizon_over_1000")
+    if (T + 2 * N) % 3 == 0 and r.dtype.is_floating_point:
+        # rewards that are part of an autograd graph (a learnt reward model): the returns are the same numbers
+        r = r.clone().requires_grad_(True)
+        mon.cls("rewards_require_grad")
     with warnings.catch_warnings():
         warnings.simplefilter("ignore")
         if case["form"] == "module":
